@@ -39,3 +39,4 @@ def run(ctx):
     ctx.run_rule("PB", r_cbudget.rule_PB)
     import r_asmsym
     ctx.run_rule("R1asm1", r_asmsym.rule_R1asm_single)
+    ctx.run_rule("R1asmX", r_asmsym.rule_R1asm_xof)
